@@ -70,6 +70,8 @@ func writeForeignTar(ms []member, format tar.Format, style string, mtime time.Ti
 			n = "./" + m.Path
 		case "abs":
 			n = "/" + m.Path
+		case "abstop":
+			n = path.Join("/top", m.Path) // as `tar -P -cf drive.tar /top` writes it
 		default:
 			n = path.Join("top", m.Path)
 		}
@@ -104,13 +106,13 @@ func writeForeignTar(ms []member, format tar.Format, style string, mtime time.Ti
 func init() {
 	Register(&Check{
 		ID: "C17", Level: "exploration", Tech: "deterministic simulation: a second, independent writer (archive/tar) produces the medium; the documented composition is opened over it on the simulated drive, followed by further calls and a rebuild restart",
-		Rule:      "generated directory trees (depth <= 4, 1-10 members, names up to 120 bytes incl. spaces/dots/non-ASCII, contents 0..11000 bytes) are written by archive/tar as USTAR, PAX or GNU archives in three root styles ('./', '/', named top directory) and placed on the simulated drive; NewSTFS + Initialize + cache.NewCacheFilesystem(stfs, root, none) at every record size; oracle: every member is listed under its directory exactly once with the right kind, every regular member reads back byte-identical, Stat of '/p', 'p' and './p' agree, then (half of the runs) original members are removed, removed recursively, renamed and chmod-ed, files and directories are added through the filesystem, coexist with the original members and the whole tree survives an index rebuild; non-trivial = at least 3 members incl. a nested one; distinct by (format, style, record size, tree shape)",
+		Rule:      "generated directory trees (depth <= 4, 1-10 members, names up to 120 bytes incl. spaces/dots/non-ASCII, contents 0..11000 bytes) are written by archive/tar as USTAR, PAX or GNU archives in four root styles ('./', '/', named top directory relative and absolute) and placed on the simulated drive; NewSTFS + Initialize + cache.NewCacheFilesystem(stfs, root, none) at every record size; oracle: every member is listed under its directory exactly once with the right kind, every regular member reads back byte-identical, Stat of '/p', 'p' and './p' agree, then (half of the runs) original members are removed, removed recursively, renamed and chmod-ed, files and directories are added through the filesystem, coexist with the original members and the whole tree survives an index rebuild; non-trivial = at least 3 members incl. a nested one; distinct by (format, style, record size, tree shape)",
 		QuickRuns: 8000, QuickSecs: 60, ThoroughRuns: 15000, ThoroughSecs: 1500,
 		Assumptions: []string{"the archive contains an entry for its top-level directory (as the property states)", "plain pipeline (a foreign archive is neither compressed, encrypted nor signed by STFS)"},
 		Gen: func(r *rand.Rand, tier string, relax Relax) *Case {
 			c := &Case{Cfg: PlainConfig(recordSizes[r.IntN(len(recordSizes))]), P: map[string]int64{}, S: map[string]string{}}
 			c.S["format"] = []string{"ustar", "pax", "gnu"}[r.IntN(3)]
-			c.S["style"] = []string{"dot", "abs", "top"}[r.IntN(3)]
+			c.S["style"] = []string{"dot", "abs", "top", "abstop"}[r.IntN(4)]
 			c.P["treeseed"] = int64(r.Uint32())
 			c.P["writes"] = int64(r.IntN(4))
 			if r.IntN(2) == 0 {
